@@ -165,9 +165,25 @@ void h_lemma_canon_diag(void) {
     TBIndex_canonize(&a, &t, dup); TBIndex_canonize(&b, &t, dup);
     __CPROVER_assert(a.idx == b.idx, "canonize: diagonal mirror images get the same index");
     CANARY_POINT; }
+/* order lemma (real bodies): two indices that describe the same position with two equal pieces listed in the other order get the same canonical index */
+void h_lemma_canon_perm(void) {
+    struct TBIndex a, b; struct VecInt t; int td[5]; int i = nondet_int(), j = nondet_int();
+    hv(); __CPROVER_havoc_object(&a); __CPROVER_havoc_object(td); t.data = td; t.size = a.p;
+    __CPROVER_assume(wf_ix(&a) && types_ok(&a, &t) && tbl_ok_at(ghost_g));
+    int k = KIDX_W(&a, a.idx); __CPROVER_assume(0 <= k && k <= 9 && TBIndex_kingMapInverse[k] == ghost_g && ghost_g >= 0 && ghost_g < 64);
+    __CPROVER_assume(1 <= i && i < j && j < a.p && td[i] == td[j]);
+    /* equal pieces are listed next to each other (TBPosition's constructor groups the piece types) */
+    __CPROVER_assume((td[1] != td[3] || td[2] == td[1]) && (td[1] != td[4] || (td[2] == td[1] && td[3] == td[1])) && (td[2] != td[4] || td[3] == td[2]));
+    b = a;
+    /* b: squares of pieces i and j exchanged (plain bit operations on the index; same position) */
+    { U32 si = (b.idx >> SHIFT(&b, i)) & 0x3f, sj = (b.idx >> SHIFT(&b, j)) & 0x3f;
+      b.idx = (b.idx & ~(0x3fu << SHIFT(&b, i)) & ~(0x3fu << SHIFT(&b, j))) | (sj << SHIFT(&b, i)) | (si << SHIFT(&b, j)); }
+    TBIndex_canonize(&a, &t, 1); TBIndex_canonize(&b, &t, 1);
+    __CPROVER_assert(a.idx == b.idx, "canonize: the order in which equal pieces are listed does not matter");
+    CANARY_POINT; }
 void h_staticInit(void) { hv(); TBIndex_staticInitialize(); CANARY_POINT; }
 '''
-UNWIND = {'types_ok': 5, 'spec_count_w': 5, 'TBIndex_sortPieces': 5, 'h_lemma_canon_diag': 5, 'wf_ix': 5, 'TBIndex_TBIndex': 5, 'TBIndex_setSquare': 5, 'TBIndex_staticInitialize': 65}
+UNWIND = {'h_lemma_canon_perm': 5, 'types_ok': 5, 'spec_count_w': 5, 'TBIndex_sortPieces': 5, 'h_lemma_canon_diag': 5, 'wf_ix': 5, 'TBIndex_TBIndex': 5, 'TBIndex_setSquare': 5, 'TBIndex_staticInitialize': 65}
 GROUPS = [
     Group('ctor', 'h_ctor', enforce='TBIndex_TBIndex', min_props=3),
     Group('pieceShift', 'h_pieceShift', enforce='TBIndex_pieceShift', min_props=2),
@@ -180,6 +196,7 @@ GROUPS = [
     Group('setSquare', 'h_setSquare', enforce='TBIndex_setSquare', replace=('TBIndex_pieceShift', 'TBIndex_getSquare', 'TBIndex_mirrorX', 'TBIndex_mirrorY', 'TBIndex_mirrorD'), min_props=5, timeout=3600),
     Group('sortPieces', 'h_sortPieces', enforce='TBIndex_sortPieces', min_props=5, timeout=1800),
     Group('lemma_canon_diag', 'h_lemma_canon_diag', min_props=5, timeout=10800, tier='thorough'),   # 13 min
+    Group('lemma_canon_perm', 'h_lemma_canon_perm', min_props=5, timeout=10800, tier='thorough'),
     Group('staticInitialize', 'h_staticInit', enforce='TBIndex_staticInitialize', min_props=5, timeout=1800,
           unwindset={'TBIndex_staticInitialize': [65, 65, 8]}),
 ]
